@@ -107,7 +107,7 @@ class Tree:
 def tree_to_data(v):
     """tagged tree of template-data -> python value"""
     if v["t"] == "s":
-        return False if v["v"] == "#false" else v["v"]
+        return False if v["v"] == "#false" else True if v["v"] == "#true" else v["v"]
     return {k: tree_to_data(x) for k, x in unjson(v["kv"]).items()}
 
 
@@ -170,6 +170,8 @@ def profile_of(case):
     p = d["param"]
     if p == "template":
         return "template"
+    if p == "template-data@matryer":
+        return "matryer"
     if p in ("template-schema", "require-template-schema-exists"):
         return "schema"
     if p in ("all", "include-interface-regex", "exclude-interface-regex", "recursive", "exclude-subpkg-regex"):
@@ -348,6 +350,8 @@ GO_SOURCES = {}
 
 
 # ----------------------------------------------------------------------------------------- observe
+SWITCH_SEEN = set()       # (matryer switch, observed polarity): both polarities must have been seen for the observer to count
+MATRYER_SWITCHES = ("with-resets", "stub-impl", "skip-ensure")
 SIG_RE = re.compile(r"^func \((\w+) \*(\w+)\) (M[A-Z0-9]+)\(([^)]*)\) ?([^{]*)\{", re.M)
 
 
@@ -391,7 +395,17 @@ def observe_file(path, text):
             if "ty." not in mm.group(4):
                 continue
             name = mm.group(3)[1:]
-            mocks.append({"iface": name, "struct": mm.group(2), "data": None, "types": parse_types(mm.group(4), mm.group(5))})
+            st = mm.group(2)
+            flags = None
+            if templ == "matryer":
+                body = text[mm.end():]
+                body = body[:body.find("\n}\n") if "\n}\n" in body else len(body)]
+                flags = {"with-resets": re.search(r"^func \(\w+ \*" + re.escape(st) + r"\) ResetCalls\(\)", text, re.M) is not None,
+                         "stub-impl": "panic(" not in body,
+                         "skip-ensure": re.search(r"^var _ [\w.]*\b" + re.escape(name) + r"\b[^\n]*= &" + re.escape(st) + r"\b", text, re.M) is None}
+                for k, v in flags.items():
+                    SWITCH_SEEN.add((k, v))
+            mocks.append({"iface": name, "struct": st, "data": None, "flags": flags, "types": parse_types(mm.group(4), mm.group(5))})
         bt = re.search(r"^//go:build (.+)$", text, re.M)
         return {"kind": "builtin", "pkgname": pk.group(1), "clause": pk.group(1), "template": templ,
                 "filedata": {"mock-build-tags": bt.group(1).strip()} if bt else {}, "formatter": None, "mocks": mocks}
@@ -410,7 +424,7 @@ class Judge:
 
     def where_set(self, m, param):
         cfg = self.w.case["cfg"]
-        param = param.split("(")[0]
+        param = re.split(r"[(\[]", param)[0]
         return [self.lvl(n) for n in self.T.chain(m["from"]) if param in unjson(cfg.get(n, {}))]
 
     def origin(self, m, observed):
@@ -439,6 +453,8 @@ class Judge:
             sig["share"] = d["share"]
         else:
             sig["profile"] = d["profile"]
+        if isinstance(observed, dict) and "file_level_value" in observed:
+            sig["observed_from"] = "file-level(package)" if observed["observed"] == observed["file_level_value"] else "other"
         det = {"desc": d, "param": param, "mock": None if m is None else {k: m[k] for k in ("iface", "pkg", "from", "how")},
                "expected": expected, "observed": observed, "config": self.inst.conf, "env": self.inst.env, "args": self.inst.args}
         if extra:
@@ -528,8 +544,20 @@ def mock_diffs(inst, e, o):
             out.append(("template-data", e, e["data"], o["data"]))
         if e["formatter"] != f["formatter"]:
             out.append(("formatter", e, e["formatter"], f["formatter"]))
-    if e["filedata"] != f["filedata"]:
-        out.append(("template-data(file)", e, e["filedata"], f["filedata"]))
+        if e["filedata"] != f["filedata"]:
+            out.append(("template-data(file)", e, e["filedata"], f["filedata"]))
+    else:
+        # built-in templates: the file-level keys are visible through the header, the per-mock switches of
+        # the matryer template through the generated code
+        eb, ob = e["filedata"].get("mock-build-tags"), f["filedata"].get("mock-build-tags")
+        if eb != ob:
+            out.append(("template-data(file)", e, {"mock-build-tags": eb}, {"mock-build-tags": ob}))
+        if o.get("flags") is not None:
+            for k in MATRYER_SWITCHES:
+                want = bool(e["data"].get(k, False))
+                if want != o["flags"][k]:
+                    out.append((f"template-data[{k}]", e, want,
+                                {"observed": o["flags"][k], "file_level_value": bool(e["filedata"].get(k, False))}))
     return out
 
 
@@ -837,7 +865,7 @@ def model_checks(ctx, thorough, out):
         out["m10"] = ctx.tlc("ConfigTreeMC", "ConfigTree_m10.cfg", workers=2, timeout=600, count=False)
         out["w3"] = ctx.tlc("ConfigTreeMC", "ConfigTree_w3.cfg", workers=2, timeout=600, count=False)
         out["src_layer"] = ctx.tlc("ConfigSources", "ConfigSources_layer.cfg", workers=1, timeout=300)
-        out["src_file"] = ctx.tlc("ConfigSources", "ConfigSources_file.cfg", workers=1, timeout=300, count=False)
+        out["src_d18"] = ctx.tlc("ConfigSources", "ConfigSources_d18.cfg", workers=1, timeout=300, count=False)
     except BaseException as ex:  # re-raised in the main thread
         out["error"] = ex
 
@@ -872,14 +900,11 @@ def judge_models(ctx, mc, thorough):
             ctx.note(f"model-level: {mc['src_layer'].violated} violated on ConfigSources.tla (prediction)")
         else:
             raise MachineryError("TLC failed on ConfigSources:\n" + mc["src_layer"].tail())
-    if mc["src_file"].violated == "ConfigFileOK":
-        ctx.note("model-level prediction: ConfigSources.tla code-shaped Locate reads MOCKERY_CONFIG before --config "
-                 "(ConfigFileOK violated for config given by env and flag); decided by replay")
-    elif not mc["src_file"].ok:
-        raise MachineryError("TLC failed on ConfigSources (file):\n" + mc["src_file"].tail())
+    if mc["src_d18"].violated != "ConfigFileOK":
+        raise MachineryError("sensitivity run ConfigSources_d18: expected ConfigFileOK to be violated:\n" + mc["src_d18"].tail(15))
     ctx.cov["model_sensitivity"] = {"ShareNested(D5)": mc["d5"].violated, "SkipTyped(D3)": mc["d3"].violated,
                                     "ShareUnlisted(no deep copy)": mc["m10"].violated,
-                                    "ConfigSources.Locate(env before flag)": mc["src_file"].violated}
+                                    "EnvBeforeFlag(D18)": mc["src_d18"].violated}
 
 
 def vacuity(T, cases, stats):
@@ -887,12 +912,12 @@ def vacuity(T, cases, stats):
     packed = [c for c in cases if c["desc"]["fam"] == "packed"]
     need = {"dir", "filename", "pkgname", "structname", "template-data", "replace-type", "template", "template-schema",
             "require-template-schema-exists", "formatter", "force-file-write", "all", "include-interface-regex",
-            "exclude-interface-regex", "recursive", "exclude-subpkg-regex", "log-level"}
+            "exclude-interface-regex", "recursive", "exclude-subpkg-regex", "log-level", "template-data@matryer"}
     have = {c["desc"]["param"] for c in chain}
     if not need <= have:
         raise MachineryError(f"vacuous: no chain world for {sorted(need - have)}")
     # every level of the target chain (and the default) is the winning one for some world of every scalar parameter
-    for p in sorted(need - {"template-data", "replace-type", "log-level", "all", "include-interface-regex", "exclude-interface-regex",
+    for p in sorted(need - {"template-data", "replace-type", "log-level", "template-data@matryer", "all", "include-interface-regex", "exclude-interface-regex",
                             "recursive", "exclude-subpkg-regex"}):
         srcs = {m["src"][p] for c in chain if c["desc"]["param"] == p for m in c["mocks"] if m["from"] == "p1A1"}
         if not {"", "env", "root", "p1", "p1A", "p1A1"} <= srcs:
@@ -978,6 +1003,9 @@ def run(ctx):
                                 "contract_effective": {k: m[k] for k in ("template", "formatter", "data", "struct")},
                                 "file": os.path.relpath(m["path"], inst.W), "verdict": "observed = contract"})
     t_replay = time.time() - t0
+    sw_bad = [x for x in bad_all if x[0].get("param", "").startswith("template-data[")]
+    if sw_bad and len(SWITCH_SEEN) < 2 * len(MATRYER_SWITCHES):
+        raise MachineryError(f"matryer switch observers saw only {sorted(SWITCH_SEEN)}: the template text changed, cannot observe")
     lvl_bad = [x for x in bad_all if x[0].get("param") == "log-level" and x[0]["kind"] == "effective-mismatch"]
     if lvl_bad and not LOG_FORMAT_SEEN:
         raise MachineryError("no run printed a recognisable zerolog console line (`... INF ...`): cannot observe log-level")
